@@ -1,8 +1,9 @@
 --------------------------- MODULE SmartJailGen ---------------------------
 (* E1 + E2 for C31: TLC enumerates every client path of the bounded hostile alphabet (one initial state per case),
-   checks on the model that nothing outside the NAMED deviation class escapes (EscapesOnlyKnown) and exports the
-   case table with the model's verdict per path.  JailInvariant - the property itself - is expected to be violated
-   by the model (witness WitnessJailHolds): the composition leaks for "%2F" inside a ".." segment. *)
+   checks the property on the model (JailInvariant: not rejected => inside the served directory; and that the
+   unguarded translation would escape only in the input classes that key the signatures) and exports the case
+   table with the model's verdict per path.  For control-directory opens the jail hook's invariant is still
+   violated by the model (witness WitnessOpenJailHolds, known finding: "a//.." under a jail subdirectory). *)
 EXTENDS SmartJail, TLC, Json, IOUtils, SequencesExt
 CONSTANTS MaxNames,      \* names per path for the DeepRootForms
           ShallowNames,  \* names per path for the other (root, form) combinations
@@ -37,14 +38,14 @@ VARIABLE c
 Init == c \in PathCases \/ c \in OpenCases
 Next == UNCHANGED c
 IsPath == c.kind = "path"
-LawsHoldOnSpec == IF IsPath THEN EscapesOnlyKnown(c) ELSE OpenEscapesOnlyKnown(c)
+LawsHoldOnSpec == IF IsPath THEN GuardedHolds(c) ELSE OpenEscapesOnlyKnown(c)
 S == SpecOut(c)
 \* anti-vacuity / deviation witnesses: TLC must violate these
-WitnessJailHolds == IsPath => JailInvariant(c)                      \* the model leaks (named deviations)
+WitnessUnguardedJailHolds == IsPath => JailInvariantS(SpecOutUnguarded(c))    \* what the guard prevents
 WitnessOpenJailHolds == ~IsPath => OpenInvariant(c)
 WitnessAboveRoot == ~(IsPath /\ S.plain.rej = "above-root")
 WitnessNotChild  == ~(IsPath /\ c.root # "/" /\ S.vfs.rej = "not-child")
-WitnessInsideDeep == ~(IsPath /\ S.vfs.where = "in" /\ KnownDeviation(c))   \* deviation class, no escape
+WitnessInsideDeep == ~(IsPath /\ S.vfs.where = "in" /\ KnownDeviation(c))   \* guarded class, separator popped
 WitnessUserdir == ~(IsPath /\ S.vfs.rej = "no" /\ Len(ServedRel(S.vfs.rel)) >= 3
                     /\ ServedRel(S.vfs.rel)[2] = <<Tok("h", 0)>>)
 WitnessJailBreak == ~(~IsPath /\ c.scheme = "backing" /\ ~JailAllows(c))
@@ -57,11 +58,13 @@ Verdict(x) == LET s == SpecOut(x) IN
 \* every witness in ONE pass (a TLC start costs seconds): each must be reached by some case
 Reached(W(_)) == \E x \in PathCases \cup OpenCases : W(x)
 WitnessesReached ==
-    /\ Reached(LAMBDA x : x.kind = "path" /\ KnownDeviation(x) /\ SpecOut(x).vfs.where = "out")
-    /\ Reached(LAMBDA x : x.kind = "path" /\ SlashFirstDeviation(x)
-                          /\ LET s == SpecOut(x) IN s.vfs.where = "in" /\ s.vfsclone.where = "out")
+    /\ Reached(LAMBDA x : x.kind = "path" /\ KnownDeviation(x) /\ SpecOut(x).vfs.rej = "escaped-separator"
+                          /\ SpecOutUnguarded(x).vfs.where = "out")
+    /\ Reached(LAMBDA x : x.kind = "path" /\ SlashFirstDeviation(x) /\ SpecOut(x).vfsclone.rej = "escaped-separator"
+                          /\ LET u == SpecOutUnguarded(x) IN u.vfs.where = "in" /\ u.vfsclone.where = "out")
+    /\ Reached(LAMBDA x : x.kind = "path" /\ SpecOut(x).vfs.rej = "escaped-separator"
+                          /\ SpecOutUnguarded(x).vfsclone.where = "in")
     /\ Reached(LAMBDA x : x.kind = "path" /\ ".." \in Rng(x.names) /\ SpecOut(x).plain.rej = "above-root")
-    /\ Reached(LAMBDA x : x.kind = "path" /\ KnownDeviation(x) /\ SpecOut(x).vfs.where = "in")
     /\ Reached(LAMBDA x : x.kind = "path" /\ "U+00E9" \in Rng(x.names) /\ SpecOut(x).vfs.where = "unres")
     /\ Reached(LAMBDA x : x.kind = "path" /\ "~" \in Rng(x.names)
                           /\ LET s == SpecOut(x) IN s.vfs.rej = "no" /\ Len(ServedRel(s.vfs.rel)) >= 3
